@@ -20,6 +20,7 @@ import (
 	"fmt"
 	"os"
 	"path/filepath"
+	"runtime"
 	"runtime/debug"
 	"sort"
 	"strconv"
@@ -272,19 +273,48 @@ func panicSite(stack string) string {
 	return "unknown"
 }
 
+// inflight records the case that is about to run (so that the driver can name it if the process dies or hangs) and
+// starts the watchdog: a single case that runs longer than the allowance (VERIF_CASE_LIMIT_S; cases take milliseconds
+// to seconds) ends the process with status 97 after dumping all goroutine stacks. The driver then replays that case
+// alone with a doubled allowance - only a case that does not finish twice is reported (as a hang).
+func (r *runner[C]) inflight(cj []byte) (stop func()) {
+	if r.out == "" {
+		return func() {}
+	}
+	path := filepath.Join(r.out, "inflight.json")
+	_ = os.WriteFile(path, cj, 0o644)
+	limit := caseLimit()
+	t := time.AfterFunc(limit, func() {
+		buf := make([]byte, 1<<20)
+		n := runtime.Stack(buf, true)
+		fmt.Fprintf(os.Stderr, "\nWATCHDOG: the case in inflight.json did not finish within %v; goroutines:\n%s\n", limit, buf[:n])
+		os.Exit(97)
+	})
+	return func() {
+		t.Stop()
+		_ = os.Remove(path)
+	}
+}
+
+func caseLimit() time.Duration {
+	if v, err := strconv.Atoi(os.Getenv("VERIF_CASE_LIMIT_S")); err == nil && v > 0 {
+		return time.Duration(v) * time.Second
+	}
+	if Thorough() {
+		return 900 * time.Second
+	}
+	return 300 * time.Second
+}
+
 func (r *runner[C]) exec(c C, count bool) *Violation {
 	cj, err := json.Marshal(c)
 	if err != nil {
 		panic(fmt.Sprintf("case not serialisable: %v", err))
 	}
-	if r.spec.MayDie && r.out != "" {
-		_ = os.WriteFile(filepath.Join(r.out, "inflight.json"), cj, 0o644)
-	}
+	stop := r.inflight(cj)
 	x := &Ctx{}
 	v := safeProp(r.spec.Prop, c, x)
-	if r.spec.MayDie && r.out != "" {
-		_ = os.Remove(filepath.Join(r.out, "inflight.json"))
-	}
+	stop()
 	r.mu.Lock()
 	defer r.mu.Unlock()
 	if v != nil {
@@ -376,13 +406,9 @@ func (r *runner[C]) structuralShrink() {
 			if err != nil || len(cj) >= len(bj) {
 				continue
 			}
-			if r.spec.MayDie && r.out != "" {
-				_ = os.WriteFile(filepath.Join(r.out, "inflight.json"), cj, 0o644)
-			}
+			stop := r.inflight(cj)
 			v := safeProp(r.spec.Prop, cand, &Ctx{})
-			if r.spec.MayDie && r.out != "" {
-				_ = os.Remove(filepath.Join(r.out, "inflight.json"))
-			}
+			stop()
 			if v != nil && v.Fingerprint == fp {
 				best = cand
 				rj := cj
